@@ -1,0 +1,80 @@
+// Copyright 2020-2025 Buf Technologies, Inc.
+//
+// Licensed under the Apache License, Version 2.0 (the "License");
+// you may not use this file except in compliance with the License.
+// You may obtain a copy of the License at
+//
+//      http://www.apache.org/licenses/LICENSE-2.0
+//
+// Unless required by applicable law or agreed to in writing, software
+// distributed under the License is distributed on an "AS IS" BASIS,
+// WITHOUT WARRANTIES OR CONDITIONS OF ANY KIND, either express or implied.
+// See the License for the specific language governing permissions and
+// limitations under the License.
+
+//go:build verif
+
+package bufconnect
+
+// Contracts for the gocv verifier (see /verif/DESIGN.md). Comment-only.
+//
+// C19: a token is attached to a request only if it was configured for the request's registry host.
+//
+//@ trusted pure func (TokenProvider) RemoteToken(address) (r)
+//@ trusted pure func (TokenProvider) IsFromEnvVar() (r)
+//
+//@ func newSingleTokenProvider(token, isFromEnvVar) (r, err)
+//@   property C19
+//@   ensures wellformed: err == nil ==> r != nil && r.token == token && token != "" && !contains(token, "@") && !contains(token, ",")
+//@   ensures rejected: err != nil ==> r == nil
+//@   ensures complete: token != "" && !contains(token, "@") && !contains(token, ",") ==> err == nil
+//
+//@ pure func (t *singleTokenProvider) RemoteToken(address) (r)
+//@   property C19
+//@   ensures r == t.token
+//
+// Every entry of the table comes from exactly one well-formed token@host element; a malformed
+// element rejects the whole string (no provider is returned).
+//@ func newMultipleTokenProvider(tokens, isFromEnvVar) (r, err)
+//@   property C19
+//@   ensures rejected: err != nil ==> r == nil
+//@   ensures entries: err == nil ==> r != nil && (forall h string :: h in r.addressToToken ==> h != "" && r.addressToToken[h] != "" && !contains(r.addressToToken[h], "@") && !contains(r.addressToToken[h], ":") && !contains(r.addressToToken[h], ",") && !contains(h, "@") && (exists j int :: 0 <= j && j < len(tokens) && tokens[j] == r.addressToToken[h] + "@" + h))
+//@   ensures all-applied: err == nil ==> (forall j int :: 0 <= j && j < len(tokens) ==> len(strings.Split(tokens[j], "@")) == 2 && strings.Split(tokens[j], "@")[1] in r.addressToToken && r.addressToToken[strings.Split(tokens[j], "@")[1]] == strings.Split(tokens[j], "@")[0])
+//@   loop 0 invariant forall h string :: h in addressToToken ==> h != "" && addressToToken[h] != "" && !contains(addressToToken[h], "@") && !contains(addressToToken[h], ":") && !contains(addressToToken[h], ",") && !contains(h, "@") && (exists j int :: 0 <= j && j < $i && tokens[j] == addressToToken[h] + "@" + h)
+//@   loop 0 invariant forall j int :: 0 <= j && j < $i ==> len(strings.Split(tokens[j], "@")) == 2 && strings.Split(tokens[j], "@")[1] in addressToToken && addressToToken[strings.Split(tokens[j], "@")[1]] == strings.Split(tokens[j], "@")[0]
+//@   canary ensures err != nil
+//
+// Exact-match lookup: a token configured for one host is never returned for another.
+//@ pure func (m *multipleTokenProvider) RemoteToken(address) (r)
+//@   property C19
+//@   ensures exact: r == ite(address in m.addressToToken, m.addressToToken[address], "")
+//
+//@ pure func (nopTokenProvider) RemoteToken(address) (r)
+//@   property C19
+//@   ensures r == ""
+//
+//@ func newTokenProviderFromString(token, isFromEnvVar) (r, err)
+//@   property C19
+//@   modifies heap
+//@   ensures empty: token == "" ==> err == nil && typeOf(r) == typeId(nopTokenProvider)
+//@   ensures single: token != "" && !contains(token, ",") && !contains(token, "@") ==> err == nil && typeOf(r) == typeId(*singleTokenProvider)
+//@   ensures multi: (contains(token, ",") || contains(token, "@")) && err == nil ==> typeOf(r) == typeId(*multipleTokenProvider)
+//
+// .netrc: the machine looked up is the one for the request's address; an error or no machine yields no token.
+//@ func (nt *netrcTokenProvider) RemoteToken(address) (r)
+//@   property C19
+//@   callback pure getMachineForName
+//@   ensures per-host: r == ite(second(nt.getMachineForName(nt.container, address)) != nil || first(nt.getMachineForName(nt.container, address)) == nil, "", first(nt.getMachineForName(nt.container, address)).Password())
+//
+// The interceptor (closure 2 is the innermost literal): the Authorization header is set at most once,
+// to the prefix plus the token that the FIRST provider with a non-empty token returns for the CAPTURED
+// address; it is not set at all when no provider has a token for that address.
+//@ func NewAuthorizationInterceptorProvider(tokenProviders) (r)
+//@   property C19
+//@   modifies heap
+//@   closure 0 ensures true
+//@   closure 1 ensures true
+//@   closure 2 ensures first-source-wins: forall v string :: v in ghost.hdrVals && !(v in old(ghost.hdrVals)) ==> (exists k int :: 0 <= k && k < len(tokenProviders) && tokenProviders[k].RemoteToken(address) != "" && v == AuthenticationTokenPrefix + tokenProviders[k].RemoteToken(address) && (forall j int :: 0 <= j && j < k ==> tokenProviders[j].RemoteToken(address) == ""))
+//@   closure 2 ensures attached-when-configured: forall k int :: 0 <= k && k < len(tokenProviders) && tokenProviders[k].RemoteToken(address) != "" && (forall j int :: 0 <= j && j < k ==> tokenProviders[j].RemoteToken(address) == "") ==> (AuthenticationTokenPrefix + tokenProviders[k].RemoteToken(address)) in ghost.hdrVals
+//@   loop 0 invariant ghost.hdrVals == old(ghost.hdrVals) && !hasToken
+//@   loop 0 invariant forall j int :: 0 <= j && j < $i ==> tokenProviders[j].RemoteToken(address) == ""
